@@ -18,7 +18,7 @@ use dmntk_model::model::{BuiltinAggregator, DecisionTable, DecisionTableOrientat
 use serde_json::{json, Value as J};
 use std::time::Duration;
 
-const ALPHABET: [char; 14] = [' ', '│', '─', '┼', '║', '═', '╬', '╪', '╫', '┴', '├', '╟', 'x', '"'];
+const ALPHABET: [char; 27] = [' ', '│', '─', '┼', '║', '═', '╬', '╪', '╫', '┴', '├', '╟', 'x', '"', '┌', '┐', '└', '┘', '┤', '┬', '╞', '╡', '╢', '╥', '╨', '╤', '╧'];
 
 fn norm(s: &str) -> String {
   s.split_whitespace().collect::<Vec<_>>().join(" ")
@@ -314,7 +314,7 @@ pub fn check(mut ctx: Ctx, replay: Option<J>) -> ! {
   let n = recs.len() as u64;
   ctx.cov("evaluations", json!(n));
   ctx.cov("distinct_nontrivial", json!(n));
-  ctx.cov("rule", json!("one case = one drawing configuration enumerated by TLC (orientation x name box x allowed values x output label x 1..3 outputs x 0..2 annotations x cell style x sizes up to 5 inputs and 8 rules, and all 11 hit policy markers), drawn, recognised and compared field by field, then evaluated on 5 input tuples against the equivalent XML table; or one single-character corruption (14-character alphabet, every position) of a spread of the drawings"));
+  ctx.cov("rule", json!("one case = one drawing configuration enumerated by TLC (orientation x name box x allowed values x output label x 1..3 outputs x 0..2 annotations x cell style x sizes up to 5 inputs and 8 rules, and all 11 hit policy markers), drawn, recognised and compared field by field, then evaluated on 5 input tuples against the equivalent XML table; or one single-character corruption (27-character alphabet, every position) of a spread of the drawings"));
   ctx.sample(json!({"t": recs[0]["t"]}));
   ctx.assume("the drawer (harness/src/draw.rs) draws what the configuration says; it is modelled on the repository's gallery and its output is checked only through the recogniser");
   ctx.assume("texts are compared after white-space normalisation (cells are padded and may be wrapped)");
